@@ -21,10 +21,14 @@ Record dump := mkDump {
 }.
 
 Record history := mkHist {
+  hi_arb : bool;        (* the node runs in arbitrating mode (block publisher configuration) *)
   hi_genesis : block;
   hi_volume : Z;        (* configured GenesisCoinVolume *)
   hi_d0 : dump;         (* after Visor.Init *)
-  hi_steps : list (block * outcome * dump)
+  (* submitted block, verdict, state after the op, and — when accepted — the
+     transactions of the block as re-read from the node's store (an arbitrating
+     node stores a filtered, re-ordered body) *)
+  hi_steps : list (block * outcome * dump * list txn)
 }.
 
 Definition eqb_trip (a b : Z * Z * Z) : bool :=
@@ -43,13 +47,15 @@ Fixpoint d_find (id : Z) (l : list (Z * Z * Z)) : option (Z * Z) :=
    local indices (init = 0, steps from 1) where `test` is false *)
 Section Walk.
   Variable A : Type.
-  Variable test : A -> dump -> block -> outcome -> dump -> bool.
-  Variable next : A -> dump -> block -> outcome -> dump -> A.
-  Fixpoint walk (i : Z) (acc : A) (prev : dump) (l : list (block * outcome * dump)) : list Z :=
+  (* the tests see the block with the body the node STORED (sb) next to the submitted one *)
+  Variable test : A -> dump -> block -> block -> outcome -> dump -> bool.
+  Variable next : A -> dump -> block -> block -> outcome -> dump -> A.
+  Fixpoint walk (i : Z) (acc : A) (prev : dump) (l : list (block * outcome * dump * list txn)) : list Z :=
     match l with
     | [] => []
-    | (b, o, d) :: r =>
-        (if test acc prev b o d then [] else [i]) ++ walk (i + 1) (next acc prev b o d) d r
+    | (b, o, d, st) :: r =>
+        let sb := mkBlock (b_head b) (b_hash b) (b_body_actual b) (b_sig_ok b) st in
+        (if test acc prev b sb o d then [] else [i]) ++ walk (i + 1) (next acc prev b sb o d) d r
     end.
 End Walk.
 
@@ -74,13 +80,13 @@ Definition txn_balanced (prev : dump) (t : txn) : bool :=
   | Some cin => (cin =? sumZ (map o_coins (t_outs t))) && (cin <? 2 ^ 64)
   | None => false
   end.
-Definition c01_test (vol : Z) (_ : unit) (prev : dump) (b : block) (o : outcome) (d : dump) : bool :=
+Definition c01_test (vol : Z) (_ : unit) (prev : dump) (b sb : block) (o : outcome) (d : dump) : bool :=
   (sumZ (d_coins d) =? vol) &&
-  (if is_accepted o then forallb (txn_balanced prev) (b_txns b) else true).
+  (if is_accepted o then forallb (txn_balanced prev) (b_txns sb) else true).
 Definition pf_c01_hist (h : history) : list Z :=
   (if (sumZ (d_coins (hi_d0 h)) =? hi_volume h) &&
       (sumZ (map o_coins (flat_map t_outs (b_txns (hi_genesis h)))) =? hi_volume h) then [] else [0]) ++
-  walk unit (c01_test (hi_volume h)) (fun _ _ _ _ _ => tt) 1 tt (hi_d0 h) (hi_steps h).
+  walk unit (c01_test (hi_volume h)) (fun _ _ _ _ _ _ => tt) 1 tt (hi_d0 h) (hi_steps h).
 
 (* ------------------------------------------------------------------ C02 *)
 (* accumulator: ids created so far, ids spent so far, expected unspent ids (created minus spent) *)
@@ -92,7 +98,8 @@ Fixpoint insert_sorted (x : Z) (l : list Z) : list Z :=
 Definition sortZ (l : list Z) : list Z := fold_right insert_sorted [] l.
 Definition subsetZ (a b : list Z) : bool := forallb (fun x => memZ x b) a.
 Definition disjointZ (a b : list Z) : bool := forallb (fun x => negb (memZ x b)) a.
-Definition c02_next (a : c02_acc) (_ : dump) (b : block) (o : outcome) (_ : dump) : c02_acc :=
+(* the accounting follows the body the node stored *)
+Definition c02_next (a : c02_acc) (_ : dump) (_ b : block) (o : outcome) (_ : dump) : c02_acc :=
   if is_accepted o then
     mkAcc (blk_out_ids b ++ a_created a) (blk_ins b ++ a_spent a)
           (filter (fun x => negb (memZ x (blk_ins b))) (a_unspent a) ++ blk_out_ids b)
@@ -102,8 +109,8 @@ Definition outs_recorded (d : dump) (b : block) : bool :=
                     | Some (c, h) => (c =? o_coins o) && (h =? o_hours o)
                     | None => false
                     end) (flat_map t_outs (b_txns b)).
-Definition c02_test (a : c02_acc) (prev : dump) (b : block) (o : outcome) (d : dump) : bool :=
-  let a' := c02_next a prev b o d in
+Definition c02_test (a : c02_acc) (prev : dump) (sub b : block) (o : outcome) (d : dump) : bool :=
+  let a' := c02_next a prev sub b o d in
   (* the unspent set is exactly created minus spent, recomputed from the accepted blocks *)
   eqb_list Z.eqb (d_ids d) (sortZ (a_unspent a')) && nodupZ (d_ids d) &&
   (if is_accepted o then
@@ -120,7 +127,8 @@ Definition pf_c02_hist (h : history) : list Z :=
   walk c02_acc c02_test c02_next 1 (mkAcc g [] g) (hi_d0 h) (hi_steps h).
 
 (* ------------------------------------------------------------------ C04 *)
-Definition c04_test (ghash : Z) (_ : unit) (prev : dump) (b : block) (o : outcome) (d : dump) : bool :=
+Definition hashes_of (ts : list txn) : list Z := map t_hash ts.
+Definition c04_test (arb : bool) (ghash : Z) (_ : unit) (prev : dump) (b sb : block) (o : outcome) (d : dump) : bool :=
   d_db_ok d && d_sig_ok d && (d_stored d =? d_head d) &&
   match o with
   | Accepted =>
@@ -133,18 +141,21 @@ Definition c04_test (ghash : Z) (_ : unit) (prev : dump) (b : block) (o : outcom
       negb (b_hash b =? ghash) &&
       (* the stored header is the submitted (signed) header, and it is the new head *)
       (d_stored d =? b_hash b) && (d_head d =? b_hash b) &&
-      (d_seq d =? h_seq (b_head b)) && (d_time d =? h_time (b_head b))
+      (d_seq d =? h_seq (b_head b)) && (d_time d =? h_time (b_head b)) &&
+      (* the stored body: the submitted one; on an arbitrating node a part of it *)
+      (if arb then forallb (fun x => memZ x (hashes_of (b_txns b))) (hashes_of (b_txns sb))
+       else eqb_list Z.eqb (hashes_of (b_txns sb)) (hashes_of (b_txns b)))
   | Rejected _ => eqb_dump prev d       (* a rejected block changes nothing *)
   | Crashed => false
   end.
 Definition pf_c04_hist (h : history) : list Z :=
   (if d_db_ok (hi_d0 h) && d_sig_ok (hi_d0 h) && (d_stored (hi_d0 h) =? b_hash (hi_genesis h)) &&
       (d_head (hi_d0 h) =? b_hash (hi_genesis h)) && (d_seq (hi_d0 h) =? 0) then [] else [0]) ++
-  walk unit (c04_test (b_hash (hi_genesis h))) (fun _ _ _ _ _ => tt) 1 tt (hi_d0 h) (hi_steps h).
+  walk unit (c04_test (hi_arb h) (b_hash (hi_genesis h))) (fun _ _ _ _ _ _ => tt) 1 tt (hi_d0 h) (hi_steps h).
 
 (* ------------------------------------------------------------------ premises of the theorems,
    evaluated on every generated history (non-vacuity) *)
-Definition all_blocks (h : history) : list block := map (fun s => fst (fst s)) (hi_steps h).
+Definition all_blocks (h : history) : list block := map (fun s => fst (fst (fst s))) (hi_steps h).
 Definition all_txns (h : history) : list txn := flat_map b_txns (all_blocks h).
 Definition block_in_range_b (b : block) : bool :=
   forallb (fun t => forallb (fun o => in_ub 64 (o_coins o)) (t_outs t)) (b_txns b).
